@@ -641,3 +641,679 @@ Proof.
   intros (ops & a & <-). destruct (run a ∅ ops) as [t' l] eqn:R.
   apply run_spec in R as [W _]; [exact W|apply wf_empty].
 Qed.
+
+(* ---- an unknown device ------------------------------------------------------ *)
+(* "unknown": no session with this ID is registered (whatever sits under its hash) *)
+Lemma unknown_not_own t d : id_empty d = false -> server_session t d = None ->
+  forall s, lookup true t d <> Own s.
+Proof.
+  intros NE H s L. unfold server_session, server_session_g in H. rewrite NE, L in H. discriminate.
+Qed.
+
+(* a packet that is not a hello and names an unknown device: re-registration request, nothing
+   else happens (no session is touched, the table is the same), with or without a collision *)
+Lemma unknown_gets_register_talk a t p :
+  id_empty (p_dev p) = false -> server_session t (p_dev p) = None -> (p_pid p =? SvHello) = false ->
+  talk a t p = (t, [], ARegister (p_dev p)).
+Proof.
+  intros NE U NH. unfold talk, talk_g, talk_enter. rewrite NE, NH, andb_false_r. cbn [negb].
+  pose proof (unknown_not_own t _ NE U) as X.
+  destruct (lookup true t (p_dev p)) as [|s|s]; [reflexivity| |reflexivity]. exfalso. eapply X. reflexivity.
+Qed.
+
+Lemma unknown_gets_register_talk_sub a t n o :
+  id_empty (l_dev n) = false -> server_session t (l_dev n) = None -> (l_pid n =? SvHello) = false ->
+  talk_sub a t n o = (t, [], ASub None 0 (Some (l_dev n)) []).
+Proof.
+  intros NE U NH. unfold talk_sub, talk_sub_g. rewrite NE, NH. cbn [negb].
+  pose proof (unknown_not_own t _ NE U) as X.
+  destruct (lookup true t (l_dev n)) as [|s|s]; [reflexivity| |reflexivity]. exfalso. eapply X. reflexivity.
+Qed.
+
+(* inside a multi-device batch: the sub-packet of an unknown device adds exactly the
+   re-registration request naming it to the reply; the rest of the batch goes on from the same table *)
+Lemma unknown_gets_register_in_batch a hk t v r acc e h :
+  id_empty (l_dev v) = false -> server_session t (l_dev v) = None -> (l_pid v =? SvHello) = false ->
+  t !! hk = Some h -> s_id h <> l_dev v ->
+  process_multiple true a hk t (v :: r) acc e =
+  process_multiple true a hk t r (acc ++ [(l_dev v, SvRegister, 0)]) e.
+Proof.
+  intros NE U NH L D. cbn [process_multiple]. rewrite NE, L.
+  apply id_eqb_neq in D. rewrite D.
+  change (talk_sub_g true) with talk_sub. rewrite unknown_gets_register_talk_sub by assumption.
+  rewrite app_nil_r. reflexivity.
+Qed.
+
+(* ---- registration ----------------------------------------------------------- *)
+(* a well-formed hello of a device whose slot is free registers it (even when the tag list is bad) *)
+Lemma hello_registers_free a t d j tags t' e r :
+  wf t -> id_empty d = false -> t !! hash d = None ->
+  talk a t (Single (Leaf d SvHello j BHello) tags) = (t', e, r) ->
+  (exists s, server_session t' d = Some s) /\ In (ENew d) e.
+Proof.
+  intros W NE F H. unfold talk, talk_g in H. cbn [p_dev l_dev] in H. rewrite NE in H.
+  unfold talk_enter in H. cbn [p_dev l_dev p_empty l_body p_pid l_pid] in H.
+  rewrite (lookup_free_intro true _ _ F) in H. cbn in H.
+  unfold table in *. rewrite lookup_insert in H. cbn [s_id new_session] in H.
+  set (t1 := <[hash d := new_session a d j]> t) in *.
+  assert (W1 : wf t1) by (apply wf_insert; auto using new_session_q_own).
+  assert (L1 : t1 !! hash d = Some (new_session a d j)) by (unfold t1; apply lookup_insert).
+  assert (FIN : forall t2, wf t2 -> ids_mono t1 t2 -> exists s, server_session t2 d = Some s).
+  { intros t2 W2 M. destruct (M _ _ L1) as (s' & L' & E'). cbn in E'. exists s'.
+    rewrite <- E'. eapply server_session_complete; eauto. }
+  destruct (resolve_tags a d t1 tags [] [] []) as [[[t2 add] e2] rr] eqn:RT.
+  eapply resolve_tags_spec with (N := [d]) (T := tags) in RT as (W2 & M2 & A2 & _);
+    [|exact W1|apply incl_refl|constructor|constructor].
+  destruct rr as [err|].
+  - injection H as <- <- <-. split; [apply FIN; assumption|]. cbn. auto.
+  - destruct (talk_process true a (hash d) t2 (Single (Leaf d SvHello j BHello) tags) add false) as [[t3 e3] r3] eqn:TP.
+    injection H as <- <- <-.
+    eapply talk_process_spec with (N := [d]) (T := tags) in TP as (W3 & M3 & _ & _);
+      [|exact W2| |cbn; apply incl_refl|exact A2].
+    + split; [apply FIN; [exact W3|eapply ids_mono_trans; eauto]|]. cbn. auto.
+    + intros h L. destruct (M2 _ _ L1) as (h' & L' & E'). cbn in E'. cbn. congruence.
+Qed.
+
+Definition registered (t : table) (d : id) : Prop := exists k s, t !! k = Some s /\ s_id s = d.
+Definition hash_injective_on (S : id -> Prop) : Prop := forall a b, S a -> S b -> hash a = hash b -> a = b.
+
+(* without a collision an unregistered device finds its slot free *)
+Lemma no_collision_slot_free t d :
+  wf t -> hash_injective_on (fun x => registered t x \/ x = d) -> ~ registered t d -> t !! hash d = None.
+Proof.
+  intros W INJ NR. destruct (t !! hash d) as [s|] eqn:L; [|reflexivity]. exfalso.
+  destruct (W _ _ L) as (Hk & _). apply NR. exists (hash d), s. split; [exact L|].
+  apply INJ; auto. left. exists (hash d), s. auto.
+Qed.
+
+Lemma hello_registers a t d j tags t' e r :
+  wf t -> id_empty d = false -> hash_injective_on (fun x => registered t x \/ x = d) -> ~ registered t d ->
+  talk a t (Single (Leaf d SvHello j BHello) tags) = (t', e, r) ->
+  (exists s, server_session t' d = Some s) /\ In (ENew d) e.
+Proof.
+  intros W NE INJ NR H. eapply hello_registers_free; eauto. apply no_collision_slot_free; assumption.
+Qed.
+
+(* with a collision: the slot is taken by another device, every hello is answered by a
+   re-registration request and changes nothing -- the second device can never register *)
+Lemma collider_cannot_register a t d s p :
+  t !! hash d = Some s -> s_id s <> d -> id_empty d = false -> p_dev p = d ->
+  talk a t p = (t, [], if p_empty p && (p_pid p =? SvHello) then AErr EMalformed else ARegister d).
+Proof.
+  intros L D NE <-. unfold talk, talk_g, talk_enter. rewrite NE.
+  rewrite (lookup_other_intro _ _ _ L D).
+  destruct (p_empty p && (p_pid p =? SvHello)); reflexivity.
+Qed.
+
+Lemma collider_cannot_register_sub a t d s n o :
+  t !! hash d = Some s -> s_id s <> d -> id_empty d = false -> l_dev n = d ->
+  talk_sub a t n o = (t, [], ASub None 0 (Some d) []).
+Proof.
+  intros L D NE <-. unfold talk_sub, talk_sub_g. rewrite NE.
+  rewrite (lookup_other_intro _ _ _ L D). reflexivity.
+Qed.
+
+(* ------------------------------------------------------------------------- *)
+(* 4. the proxy                                                               *)
+
+Definition pq_own (c : pclient) : Prop := Forall (fun o => o_dev o = c_id c) (c_out c).
+Definition pwf (cl : gmap Z pclient) : Prop :=
+  forall k c, cl !! k = Some c -> hash (c_id c) = k /\ pq_own c.
+Definition pids_mono (cl cl' : gmap Z pclient) : Prop :=
+  forall k c, cl !! k = Some c -> exists c', cl' !! k = Some c' /\ c_id c' = c_id c.
+
+Lemma pwf_empty : pwf ∅.
+Proof. intros k c H. rewrite lookup_empty in H. discriminate. Qed.
+Lemma pwf_insert cl k c : pwf cl -> hash (c_id c) = k -> pq_own c -> pwf (<[k := c]> cl).
+Proof.
+  intros W H1 H2 k' c' H. destruct (decide (k = k')) as [->|N].
+  - rewrite lookup_insert in H. injection H as <-. auto.
+  - rewrite lookup_insert_ne in H by exact N. apply W. exact H.
+Qed.
+Lemma pwf_update cl k c c' : pwf cl -> cl !! k = Some c -> c_id c' = c_id c -> pq_own c' -> pwf (<[k := c']> cl).
+Proof. intros W H E Q. destruct (W _ _ H) as (H1 & _). apply pwf_insert; rewrite ?E; auto. Qed.
+Lemma pids_mono_refl cl : pids_mono cl cl.
+Proof. intros k c H. eauto. Qed.
+Lemma pids_mono_trans c1 c2 c3 : pids_mono c1 c2 -> pids_mono c2 c3 -> pids_mono c1 c3.
+Proof.
+  intros A B k s H. destruct (A _ _ H) as (s' & H' & E). destruct (B _ _ H') as (s'' & H'' & E').
+  exists s''. split; [exact H''|congruence].
+Qed.
+Lemma pids_mono_update cl k c c' : cl !! k = Some c -> c_id c' = c_id c -> pids_mono cl (<[k := c']> cl).
+Proof.
+  intros H E k' x Hx. destruct (decide (k = k')) as [->|N].
+  - rewrite lookup_insert. exists c'. split; [reflexivity|]. congruence.
+  - rewrite lookup_insert_ne by exact N. eauto.
+Qed.
+
+Lemma plookup_own cl d c : plookup true cl d = POwn c -> cl !! hash d = Some c /\ c_id c = d.
+Proof.
+  unfold plookup. destruct (cl !! hash d) as [x|]; [|discriminate]. cbn [andb].
+  destruct (id_eqb (c_id x) d) eqn:E; cbn [negb]; [|discriminate].
+  intros [= <-]. split; [reflexivity|]. apply id_eqb_eq. exact E.
+Qed.
+Lemma plookup_free chk cl d : plookup chk cl d = PFree -> cl !! hash d = None.
+Proof.
+  unfold plookup. destruct (cl !! hash d) as [x|]; [|reflexivity].
+  destruct (chk && negb (id_eqb (c_id x) d)); discriminate.
+Qed.
+Lemma plookup_not_own cl d :
+  (forall c, cl !! hash d = Some c -> c_id c <> d) -> forall c, plookup true cl d <> POwn c.
+Proof. intros H c L. apply plookup_own in L as [L E]. eapply H; eauto. Qed.
+
+Lemma pnext_true_spec c c' l :
+  pnext_true c = (c', l) -> pq_own c -> c_id c' = c_id c /\ pq_own c' /\ Forall (fun o => o_dev o = c_id c) l.
+Proof.
+  unfold pnext_true. intros H Q. destruct (c_out c) as [|x q] eqn:E.
+  - injection H as <- <-. auto.
+  - injection H as <- <-. cbn. split; [reflexivity|]. split; [constructor|].
+    unfold pq_own in Q. rewrite E in Q. exact Q.
+Qed.
+Lemma pnext_false_spec c c' l :
+  pnext_false c = (c', l) -> pq_own c -> c_id c' = c_id c /\ pq_own c' /\ Forall (fun o => o_dev o = c_id c) l.
+Proof.
+  unfold pnext_false. intros H Q. destruct (c_out c) as [|x q] eqn:E.
+  - injection H as <- <-. split; [reflexivity|]. split; [exact Q|]. apply Forall_one. reflexivity.
+  - injection H as <- <-. cbn. split; [reflexivity|]. split; [constructor|].
+    unfold pq_own in Q. rewrite E in Q. exact Q.
+Qed.
+
+(* Proxy.accept queues a packet only on the client entry of the device the packet names *)
+Lemma proxy_accept_spec x n x' b :
+  proxy_accept x n = (x', b) -> pwf (x_clients x) ->
+  pwf (x_clients x') /\ x_up x' = x_up x /\
+  (b = true -> exists c, x_clients x !! hash (l_dev n) = Some c /\ c_id c = l_dev n) /\
+  (forall k, k <> hash (l_dev n) -> x_clients x' !! k = x_clients x !! k) /\
+  (b = false -> x' = x).
+Proof.
+  unfold proxy_accept, proxy_accept_g. intros H W.
+  destruct (plookup true (x_clients x) (l_dev n)) as [|c|c] eqn:L.
+  - injection H as <- <-. repeat (split; [auto; discriminate|]). auto.
+  - apply plookup_own in L as [L E]. destruct (W _ _ L) as (_ & Q). destruct (is_nop n).
+    + injection H as <- <-. split; [exact W|]. split; [reflexivity|]. split; [eauto|]. split; [auto|discriminate].
+    + injection H as <- <-. cbn [x_clients x_up]. split; [|split; [reflexivity|split; [eauto|split; [|discriminate]]]].
+      * eapply pwf_update; eauto. unfold pq_own. cbn. apply Forall_app. split; [exact Q|].
+        apply Forall_one. cbn. congruence.
+      * intros k Hk. rewrite lookup_insert_ne; auto.
+  - injection H as <- <-. repeat (split; [auto; discriminate|]). auto.
+Qed.
+
+Lemma proxy_accept_refuses x n :
+  (forall c, x_clients x !! hash (l_dev n) = Some c -> c_id c <> l_dev n) -> proxy_accept x n = (x, false).
+Proof.
+  intros H. unfold proxy_accept, proxy_accept_g. pose proof (plookup_not_own _ _ H) as X.
+  destruct (plookup true (x_clients x) (l_dev n)) as [|c|c]; [reflexivity| |reflexivity].
+  exfalso. eapply X. reflexivity.
+Qed.
+
+Lemma presolve_tags_spec host tags : forall cl seen add cl' add' r N T,
+  presolve_tags host cl tags seen add = (cl', add', r) -> pwf cl -> incl tags T ->
+  Forall (out_ok N T) add ->
+  pwf cl' /\ pids_mono cl cl' /\ Forall (out_ok N T) add'.
+Proof.
+  induction tags as [|x tags IH]; intros cl seen add cl' add' r N T H W I A; cbn [presolve_tags] in H.
+  - injection H as <- <- <-. auto using pids_mono_refl.
+  - assert (I' : incl tags T) by (intros y Hy; apply I; right; exact Hy).
+    assert (Ix : In x T) by (apply I; left; reflexivity).
+    destruct (x =? 0). { injection H as <- <- <-. auto using pids_mono_refl. }
+    destruct (existsb (Z.eqb x) seen). { eapply IH; eauto. }
+    destruct (cl !! x) as [v|] eqn:L; [|eapply IH; eauto].
+    destruct (id_eqb (c_id v) host). { eapply IH; eauto. }
+    destruct (pnext_true v) as [v' l] eqn:X.
+    destruct (W _ _ L) as (Hk & Q).
+    apply pnext_true_spec in X as (X1 & X2 & X3); [|exact Q].
+    eapply (IH _ _ _ _ _ _ N T) in H as (H1 & H2 & H3); auto.
+    + split; [exact H1|]. split; [|exact H3].
+      eapply pids_mono_trans; [|exact H2]. eapply pids_mono_update; eauto.
+    + eapply pwf_update; eauto.
+    + apply Forall_app. split; [exact A|]. refine (List.Forall_impl _ _ X3).
+      cbn. intros o Ho. right. rewrite Ho, Hk. exact Ix.
+Qed.
+
+(* Proxy.talk: what is handed to the connection names the packet's device (or a tagged one);
+   what is forwarded upstream is the packet itself; a re-registration request changes nothing *)
+Lemma proxy_talk_spec x n tags x' r :
+  proxy_talk x n tags = (x', r) -> pwf (x_clients x) ->
+  pwf (x_clients x') /\
+  (exists u, x_up x' = x_up x ++ u /\ Forall (fun o => o_dev o = l_dev n) u) /\
+  match r with
+  | ARegister d => d = l_dev n /\ x' = x
+  | _ => reply_ok [l_dev n] tags r
+  end.
+Proof.
+  unfold proxy_talk, proxy_talk_g. intros H W.
+  assert (U0 : exists u, x_up x = x_up x ++ u /\ Forall (fun o => o_dev o = l_dev n) u).
+  { exists []. rewrite app_nil_r. split; [reflexivity|constructor]. }
+  destruct (id_empty (l_dev n)). { injection H as <- <-. split; [exact W|]. split; [exact U0|exact Logic.I]. }
+  assert (MAIN : forall x1 known, pwf (x_clients x1) ->
+            (exists u, x_up x1 = x_up x ++ u /\ Forall (fun o => o_dev o = l_dev n) u) ->
+            (forall c, x_clients x1 !! hash (l_dev n) = Some c -> c_id c = l_dev n) ->
+            match x_clients x1 !! hash (l_dev n) with
+            | None => (x1, AErr EOther)
+            | Some c0 =>
+              match presolve_tags (c_id c0) (x_clients x1) tags [] [] with
+              | (cl2, add, Some err) => (Proxy cl2 (x_up x1), AErr err)
+              | (cl2, add, None) =>
+                match cl2 !! hash (l_dev n) with
+                | None => (Proxy cl2 (x_up x1), AErr EOther)
+                | Some c =>
+                  let up := if is_nop n then x_up x1 else x_up x1 ++ [(l_dev n, l_pid n, l_job n)] in
+                  let '(c', l) := pnext_false c in
+                  (Proxy (<[hash (l_dev n) := c']> cl2) up, AReply known (l ++ add))
+                end
+              end
+            end = (x', r) ->
+            pwf (x_clients x') /\
+            (exists u, x_up x' = x_up x ++ u /\ Forall (fun o => o_dev o = l_dev n) u) /\
+            match r with ARegister d => d = l_dev n /\ x' = x | _ => reply_ok [l_dev n] tags r end).
+  { clear H. intros x1 known W1 U1 ID H.
+    destruct (x_clients x1 !! hash (l_dev n)) as [c0|] eqn:L0.
+    2:{ injection H as <- <-. split; [exact W1|]. split; [exact U1|exact Logic.I]. }
+    destruct (presolve_tags (c_id c0) (x_clients x1) tags [] []) as [[cl2 add] rr] eqn:PT.
+    eapply presolve_tags_spec with (N := [l_dev n]) (T := tags) in PT as (W2 & M2 & A2);
+      [|exact W1|apply incl_refl|constructor].
+    destruct rr as [err|]. { injection H as <- <-. split; [exact W2|]. split; [exact U1|exact Logic.I]. }
+    destruct (cl2 !! hash (l_dev n)) as [c|] eqn:L2.
+    2:{ injection H as <- <-. split; [exact W2|]. split; [exact U1|exact Logic.I]. }
+    destruct (pnext_false c) as [c' l] eqn:X. injection H as <- <-.
+    destruct (W2 _ _ L2) as (_ & Q). apply pnext_false_spec in X as (X1 & X2 & X3); [|exact Q].
+    destruct (M2 _ _ L0) as (c2 & L2' & E2). rewrite L2 in L2'. injection L2' as <-.
+    pose proof (ID _ eq_refl) as E0.
+    split; [cbn; eapply pwf_update; eauto|]. split.
+    - cbn [x_up]. destruct U1 as (u & Hu & Fu). destruct (is_nop n).
+      + exists u. auto.
+      + exists (u ++ [(l_dev n, l_pid n, l_job n)]). rewrite Hu, app_assoc. split; [reflexivity|].
+        apply Forall_app. split; [exact Fu|]. apply Forall_one. reflexivity.
+    - cbn. apply Forall_app. split; [|exact A2]. refine (List.Forall_impl _ _ X3).
+      cbn. intros o Ho. left. left. rewrite Ho. congruence. }
+  destruct (plookup true (x_clients x) (l_dev n)) as [|c|c] eqn:L.
+  - apply plookup_free in L. destruct (negb (l_pid n =? SvHello)).
+    { injection H as <- <-. split; [exact W|]. split; [exact U0|]. auto. }
+    eapply MAIN in H; [exact H| | |]; cbn [x_clients x_up].
+    + apply pwf_insert; auto. apply Forall_one. reflexivity.
+    + exists [(l_dev n, l_pid n, l_job n)]. split; [reflexivity|]. apply Forall_one. reflexivity.
+    + intros c. rewrite lookup_insert. intros [= <-]. reflexivity.
+  - apply plookup_own in L as [L E]. eapply MAIN in H; [exact H|exact W|exact U0|].
+    intros c1. rewrite L. intros [= <-]. exact E.
+  - injection H as <- <-. split; [exact W|]. split; [exact U0|]. auto.
+Qed.
+
+Lemma proxy_talk_sub_spec x n o x' r :
+  proxy_talk_sub x n o = (x', r) -> pwf (x_clients x) ->
+  pwf (x_clients x') /\
+  (exists u, x_up x' = x_up x ++ u /\ Forall (fun o => o_dev o = l_dev n) u) /\
+  match r with
+  | ASub k _ reg l =>
+      Forall (fun y => o_dev y = l_dev n) l /\ (forall d, reg = Some d -> d = l_dev n /\ x' = x) /\
+      (forall d, k = Some d -> d = l_dev n)
+  | AErr _ => True
+  | _ => False
+  end.
+Proof.
+  unfold proxy_talk_sub, proxy_talk_sub_g. intros H W.
+  assert (U0 : exists u, x_up x = x_up x ++ u /\ Forall (fun o => o_dev o = l_dev n) u).
+  { exists []. rewrite app_nil_r. split; [reflexivity|constructor]. }
+  assert (REG : pwf (x_clients x) /\
+    (exists u, x_up x = x_up x ++ u /\ Forall (fun o => o_dev o = l_dev n) u) /\
+    (Forall (fun y => o_dev y = l_dev n) [] /\ (forall d, Some (l_dev n) = Some d -> d = l_dev n /\ x = x) /\
+     (forall d, @None id = Some d -> d = l_dev n))).
+  { split; [exact W|]. split; [exact U0|]. split; [constructor|]. split; [intros d [= <-]; auto|discriminate]. }
+  destruct (id_empty (l_dev n)). { injection H as <- <-. split; [exact W|]. split; [exact U0|exact Logic.I]. }
+  assert (MAIN : forall x1, pwf (x_clients x1) -> x_up x1 = x_up x ->
+            (forall c, x_clients x1 !! hash (l_dev n) = Some c -> c_id c = l_dev n) ->
+            match x_clients x1 !! hash (l_dev n) with
+            | None => (x1, AErr EOther)
+            | Some c =>
+              let up := if is_nop n then x_up x1 ++ [(l_dev n, l_pid n, l_job n)] else x_up x1 in
+              if o then (Proxy (x_clients x1) up, ASub (Some (c_id c)) (hash (l_dev n)) None [])
+              else let '(c', l) := pnext_true c in
+                   (Proxy (<[hash (l_dev n) := c']> (x_clients x1)) up, ASub (Some (c_id c)) (hash (l_dev n)) None l)
+            end = (x', r) ->
+            pwf (x_clients x') /\
+            (exists u, x_up x' = x_up x ++ u /\ Forall (fun o => o_dev o = l_dev n) u) /\
+            match r with
+            | ASub k _ reg l =>
+                Forall (fun y => o_dev y = l_dev n) l /\ (forall d, reg = Some d -> d = l_dev n /\ x' = x) /\
+                (forall d, k = Some d -> d = l_dev n)
+            | AErr _ => True
+            | _ => False
+            end).
+  { clear H. intros x1 W1 U1 ID H.
+    destruct (x_clients x1 !! hash (l_dev n)) as [c|] eqn:L.
+    2:{ injection H as <- <-. split; [exact W1|]. split; [rewrite U1; exact U0|exact Logic.I]. }
+    pose proof (ID _ eq_refl) as E. destruct (W1 _ _ L) as (_ & Q).
+    assert (UP : exists u, (if is_nop n then x_up x1 ++ [(l_dev n, l_pid n, l_job n)] else x_up x1) = x_up x ++ u /\
+                           Forall (fun o => o_dev o = l_dev n) u).
+    { rewrite U1. destruct (is_nop n); [|exact U0]. eexists. split; [reflexivity|]. apply Forall_one. reflexivity. }
+    cbv zeta in H. destruct o.
+    - injection H as <- <-. split; [exact W1|]. split; [exact UP|]. split; [constructor|].
+      split; [discriminate|]. intros d [= <-]. exact E.
+    - destruct (pnext_true c) as [c' l] eqn:X. injection H as <- <-.
+      apply pnext_true_spec in X as (X1 & X2 & X3); [|exact Q].
+      split; [cbn; eapply pwf_update; eauto|]. split; [exact UP|].
+      split; [refine (List.Forall_impl _ _ X3); cbn; intros y Hy; rewrite Hy; exact E|].
+      split; [discriminate|]. intros d [= <-]. exact E. }
+  destruct (plookup true (x_clients x) (l_dev n)) as [|c|c] eqn:L.
+  - apply plookup_free in L. destruct (negb (l_pid n =? SvHello)).
+    { injection H as <- <-. exact REG. }
+    eapply MAIN in H; [exact H| | |]; cbn [x_clients x_up].
+    + apply pwf_insert; auto. apply Forall_one. reflexivity.
+    + reflexivity.
+    + intros c. rewrite lookup_insert. intros [= <-]. reflexivity.
+  - apply plookup_own in L as [L E]. eapply MAIN in H; [exact H|exact W|reflexivity|].
+    intros c1. rewrite L. intros [= <-]. exact E.
+  - injection H as <- <-. exact REG.
+Qed.
+
+(* a packet that is not a hello and names a device the proxy does not serve *)
+Lemma proxy_unknown_gets_register x n tags :
+  id_empty (l_dev n) = false -> (forall c, x_clients x !! hash (l_dev n) = Some c -> c_id c <> l_dev n) ->
+  (l_pid n =? SvHello) = false ->
+  proxy_talk x n tags = (x, ARegister (l_dev n)) /\
+  forall o, proxy_talk_sub x n o = (x, ASub None 0 (Some (l_dev n)) []).
+Proof.
+  intros NE U NH. pose proof (plookup_not_own _ _ U) as X.
+  unfold proxy_talk, proxy_talk_g, proxy_talk_sub, proxy_talk_sub_g. rewrite NE, NH. cbn [negb].
+  destruct (plookup true (x_clients x) (l_dev n)) as [|c|c]; auto. exfalso. eapply X. reflexivity.
+Qed.
+
+(* with a collision the second device can never register at the proxy either *)
+Lemma proxy_collider_cannot_register x n tags c :
+  id_empty (l_dev n) = false -> x_clients x !! hash (l_dev n) = Some c -> c_id c <> l_dev n ->
+  proxy_talk x n tags = (x, ARegister (l_dev n)) /\
+  forall o, proxy_talk_sub x n o = (x, ASub None 0 (Some (l_dev n)) []).
+Proof.
+  intros NE L D. unfold proxy_talk, proxy_talk_g, proxy_talk_sub, proxy_talk_sub_g, plookup. rewrite NE, L.
+  apply id_eqb_neq in D. rewrite D. cbn. auto.
+Qed.
+
+Definition pans_ok (o : pop) (x x' : proxy) (r : ans) : Prop :=
+  match o with
+  | PTalk n tags =>
+      (exists u, x_up x' = x_up x ++ u /\ Forall (fun y => o_dev y = l_dev n) u) /\
+      match r with ARegister d => d = l_dev n /\ x' = x | _ => reply_ok [l_dev n] tags r end
+  | PTalkSub n _ =>
+      (exists u, x_up x' = x_up x ++ u /\ Forall (fun y => o_dev y = l_dev n) u) /\
+      match r with
+      | ASub k _ reg l => Forall (fun y => o_dev y = l_dev n) l /\ (forall d, reg = Some d -> d = l_dev n /\ x' = x) /\
+                          (forall d, k = Some d -> d = l_dev n)
+      | AErr _ => True
+      | _ => False
+      end
+  | PAccept n =>
+      x_up x' = x_up x /\
+      (r = ABool true -> exists c, x_clients x !! hash (l_dev n) = Some c /\ c_id c = l_dev n) /\
+      (forall k, k <> hash (l_dev n) -> x_clients x' !! k = x_clients x !! k)
+  end.
+
+Lemma pstep_spec x o x' r :
+  pstep x o = (x', r) -> pwf (x_clients x) -> pwf (x_clients x') /\ pans_ok o x x' r.
+Proof.
+  unfold pstep, pstep_g. intros H W. destruct o as [n tags|n b|n].
+  - change (proxy_talk_g true) with proxy_talk in H. apply proxy_talk_spec in H as (A & B & C); auto.
+    split; [exact A|]. split; assumption.
+  - change (proxy_talk_sub_g true) with proxy_talk_sub in H. apply proxy_talk_sub_spec in H as (A & B & C); auto.
+    split; [exact A|]. split; assumption.
+  - change (proxy_accept_g true) with proxy_accept in H.
+    destruct (proxy_accept x n) as [x1 b] eqn:P. injection H as <- <-.
+    apply proxy_accept_spec in P as (A & B & C & D & _); auto.
+    split; [exact A|]. split; [exact B|]. split; [|exact D]. intros [= ->]. auto.
+Qed.
+
+Fixpoint prun (x : proxy) (ops : list pop) : proxy * list (proxy * proxy * ans) :=
+  match ops with
+  | [] => (x, [])
+  | o :: r => let '(x', a) := pstep x o in let '(x'', l) := prun x' r in (x'', (x, x', a) :: l)
+  end.
+
+Lemma prun_spec ops : forall x x' l,
+  prun x ops = (x', l) -> pwf (x_clients x) ->
+  pwf (x_clients x') /\ Forall2 (fun o s => pans_ok o s.1.1 s.1.2 s.2) ops l.
+Proof.
+  induction ops as [|o ops IH]; intros x x' l H W; cbn [prun] in H.
+  - injection H as <- <-. split; [exact W|constructor].
+  - destruct (pstep x o) as [x1 a1] eqn:S. destruct (prun x1 ops) as [x2 l2] eqn:R. injection H as <- <-.
+    apply pstep_spec in S as (W1 & A1); [|exact W]. apply IH in R as (W2 & F2); [|exact W1].
+    split; [exact W2|]. constructor; [exact A1|exact F2].
+Qed.
+
+(* ------------------------------------------------------------------------- *)
+(* 5. a real collision of device.ID.Hash, what it still breaks, and the code as it was *)
+
+(* two 32-byte IDs found by the harness' birthday search (seed 1, 104567 draws); the harness emits
+   CHash cases for both on every run, so the equality below is also checked against ID.Hash *)
+Definition idA : id := [34;242;139;54;30;30;197;160;80;5;178;199;10;158;94;217;190;137;109;65;229;182;244;163;213;161;227;244;214;184;8;199].
+Definition idB : id := [143;104;114;102;31;248;22;180;236;21;207;155;106;105;30;180;218;102;25;79;124;49;186;59;156;28;0;153;235;231;210;143].
+Definition idC : id := [1;2;3;4;5;6;7;8;9;10;11;12;13;14;15;16;17;18;19;20;21;22;23;24;25;26;27;28;29;30;31;32].
+
+Lemma real_collision : hash idA = 827974963 /\ hash idB = 827974963 /\ idA <> idB.
+Proof. split; [vm_compute; reflexivity|]. split; [vm_compute; reflexivity|]. discriminate. Qed.
+
+Lemma hash_not_injective : ~ hash_injective_on (fun _ => True).
+Proof.
+  intros H. destruct real_collision as (HA & HB & NE). apply NE. apply H; auto; congruence.
+Qed.
+
+(* the table after A registered *)
+Definition tA : table := <[hash idA := new_session 1 idA 10]> ∅.
+
+Lemma tA_wf : wf tA.
+Proof. apply wf_insert; auto using wf_empty, new_session_q_own. Qed.
+Lemma tA_slot_B : tA !! hash idB = Some (new_session 1 idA 10).
+Proof.
+  destruct real_collision as (HA & HB & _). unfold tA, table. rewrite HB, <- HA. apply lookup_insert.
+Qed.
+Lemma tA_B_unregistered : ~ registered tA idB.
+Proof.
+  intros (k & s & L & E). unfold tA, table in L. destruct (decide (hash idA = k)) as [<-|N].
+  - rewrite lookup_insert in L. injection L as <-. cbn in E. discriminate.
+  - rewrite lookup_insert_ne in L by exact N. rewrite lookup_empty in L. discriminate.
+Qed.
+
+(* B's hello, any number of times, with any tags: a re-registration request and nothing else *)
+Lemma second_device_cannot_register a j tags :
+  talk a tA (Single (Leaf idB SvHello j BHello) tags) = (tA, [], ARegister idB).
+Proof.
+  rewrite (collider_cannot_register a tA idB (new_session 1 idA 10)).
+  - reflexivity.
+  - apply tA_slot_B.
+  - cbn. discriminate.
+  - reflexivity.
+  - reflexivity.
+Qed.
+
+(* the bare statement "a well-formed hello of an unregistered device registers it" is false *)
+Lemma collision_refuted :
+  ~ (forall a t d j tags t' e r, wf t -> id_empty d = false -> ~ registered t d ->
+       talk a t (Single (Leaf d SvHello j BHello) tags) = (t', e, r) ->
+       exists s, server_session t' d = Some s).
+Proof.
+  intros H.
+  destruct (H 2 tA idB 11 [] _ _ _ tA_wf eq_refl tA_B_unregistered (second_device_cannot_register 2 11 [])) as (s & S).
+  apply server_session_own in S as [L E]. rewrite tA_slot_B in L. injection L as <-. cbn in E. discriminate.
+Qed.
+
+(* Server.Remove works by hash: Remove(B) drops A's session (not a packet matter; stated for the record) *)
+Lemma remove_by_hash_drops_collider : (server_remove tA idB).2 = [EDrop idA].
+Proof. unfold server_remove. rewrite tA_slot_B. reflexivity. Qed.
+
+(* without collisions the hash-only lookup and the repaired lookup agree *)
+Lemma lookup_hash_only_eq t d :
+  wf t -> hash_injective_on (fun x => registered t x \/ x = d) -> lookup false t d = lookup true t d.
+Proof.
+  intros W INJ. unfold lookup. destruct (t !! hash d) as [s|] eqn:L; [|reflexivity].
+  destruct (W _ _ L) as (Hk & _). assert (E : s_id s = d).
+  { apply INJ; auto. left. exists (hash d), s. auto. }
+  cbn [andb]. rewrite E, id_eqb_refl. reflexivity.
+Qed.
+
+(* ---- the code as it was (hash only): what a colliding ID did ------------------ *)
+(* Server.Session(B) returned A's session; now it returns nothing *)
+Lemma old_session_refuted :
+  option_map s_id (server_session_g false tA idB) = Some idA /\ server_session tA idB = None.
+Proof. split; vm_compute; reflexivity. Qed.
+
+(* a packet naming B (carrying key material) reaching Listener.talk: A's session had its address
+   and last-seen time updated and its key material overwritten before receive() refused the
+   packet; now nothing is touched and B is asked to register *)
+Lemma old_talk_refuted :
+  (let '(_, e, r) := talk_g false 2 tA (Single (Leaf idB 192 11 (BKey 77)) []) in (e, r))
+    = ([ETouch idA idB; ERekey idA idB 77], AErr EMismatch) /\
+  (let '(_, e, r) := talk 2 tA (Single (Leaf idB 192 11 (BKey 77)) []) in (e, r)) = ([], ARegister idB).
+Proof. split; vm_compute; reflexivity. Qed.
+
+(* the same through talkSub (a sub-packet naming B in a batch of another device) *)
+Lemma old_talk_sub_refuted :
+  (let '(_, e, r) := talk_sub_g false 2 tA (Leaf idB 192 11 (BKey 9)) false in (e, r))
+    = ([ETouch idA idB; ERekey idA idB 9], AErr EMismatch) /\
+  (let '(_, e, r) := talk_sub 2 tA (Leaf idB 192 11 (BKey 9)) false in (e, r))
+    = ([], ASub None 0 (Some idB) []).
+Proof. split; vm_compute; reflexivity. Qed.
+
+(* a multi-device packet naming B that produces no reply packets was answered with a packet
+   naming A (outbound misdelivery of an empty packet); now B is asked to register.  (hello is
+   defined below; the table is the one after A and C registered and fetched their replies.) *)
+Lemma old_multi_refuted :
+  let tAC := (run 1 ∅ [OTalk (Single (Leaf idA SvHello 10 BHello) []); OTalk (Single (Leaf idC SvHello 11 BHello) [])]).1 in
+  (talk_g false 3 tAC (MultiDev idB 12 [Leaf idC 0 0 BEmpty] [])).2 = AReply true [(idA, 0, 0)] /\
+  (talk 3 tAC (MultiDev idB 12 [Leaf idC 0 0 BEmpty] [])).2 = ARegister idB.
+Proof. split; vm_compute; reflexivity. Qed.
+
+(* the proxy: A is a client of the proxy *)
+Definition xA : proxy := Proxy (<[hash idA := PClient idA [(idA, SvComplete, 10)]]> ∅) [].
+
+(* Proxy.accept queued a packet naming B for A; Proxy.talk handed A's queued packets to the
+   connection of a packet naming B; now both treat B as unknown *)
+Lemma old_proxy_refuted :
+  (let '(x', b) := proxy_accept_g false xA (Leaf idB 208 11 BData) in (psnapshot x', b))
+    = ([(827974963, idA, [(idA, SvComplete, 10); (idB, 208, 11)])], true) /\
+  (proxy_talk_g false xA (Leaf idB 192 11 BData) []).2 = AReply true [(idA, SvComplete, 10)] /\
+  (let '(x', b) := proxy_accept xA (Leaf idB 208 11 BData) in (psnapshot x', b))
+    = ([(827974963, idA, [(idA, SvComplete, 10)])], false) /\
+  (proxy_talk xA (Leaf idB 192 11 BData) []).2 = ARegister idB.
+Proof. repeat split; vm_compute; reflexivity. Qed.
+
+(* ---- a concrete history (non-vacuity) ------------------------------------------ *)
+Definition hello (d : id) (j : Z) : op := OTalk (Single (Leaf d SvHello j BHello) []).
+Definition demo_ops : list op :=
+  [ hello idA 10; hello idC 11; OSend idA 208 12; OSend idB 209 13;
+    OTalk (MultiDev idC 14 [Leaf idA 192 15 BData; Leaf idB 192 16 (BKey 9); Leaf idC 193 17 BData] []);
+    OTalk (Single (Leaf idB 192 18 (BKey 77)) []); hello idB 19; OLookup idB; OLookup idA;
+    OTalk (Single (Leaf idC 0 0 BEmpty) [hash idA]); ORemove idC; OTalk (Single (Leaf idC 192 20 BData) []) ].
+
+Lemma demo_run :
+  (run 1 ∅ demo_ops).2 =
+  [ ([ETouch idA idA; ENew idA], AReply false [(idA, 4, 10)]);
+    ([ETouch idC idC; ENew idC], AReply false [(idC, 4, 11)]);
+    ([], AFound (Some idA));
+    ([], AFound None);
+    ([ETouch idC idC; ETouch idA idA; EHandle idA idA 15; EHandle idC idC 17],
+     AReply true [(idA, 208, 12); (idB, 3, 0); (idC, 0, 0)]);
+    ([], ARegister idB);
+    ([], ARegister idB);
+    ([], AFound None);
+    ([], AFound (Some idA));
+    ([ETouch idC idC; EFetch idA 827974963], AReply true [(idC, 0, 0)]);
+    ([EDrop idC], ABool true);
+    ([], ARegister idC) ].
+Proof. vm_compute. reflexivity. Qed.
+
+(* the same history on the code as it was *)
+Lemma demo_run_old :
+  map fst (run_g false 1 ∅ demo_ops).2 =
+  [ [ETouch idA idA; ENew idA]; [ETouch idC idC; ENew idC]; []; [];
+    [ETouch idC idC; ETouch idA idA; EHandle idA idA 15; ETouch idA idB; ERekey idA idB 9];
+    [ETouch idA idB; ERekey idA idB 77]; [ETouch idA idB]; []; [];
+    [ETouch idC idC; EFetch idA 827974963]; [EDrop idC]; [] ].
+Proof. vm_compute. reflexivity. Qed.
+
+(* ------------------------------------------------------------------------- *)
+(* 6. the statements Props/C15.v quotes                                       *)
+
+Lemma Forall2_weaken {A B} (P Q : A -> B -> Prop) l k :
+  (forall x y, P x y -> Q x y) -> Forall2 P l k -> Forall2 Q l k.
+Proof. intros H F. induction F; constructor; auto. Qed.
+
+Lemma history_wf ops a t t' l : wf t -> run a t ops = (t', l) -> wf t'.
+Proof. intros W R. apply run_spec in R as [W' _]; assumption. Qed.
+
+Lemma dispatch_own_session ops a t t' l :
+  wf t -> run a t ops = (t', l) ->
+  Forall2 (fun o er => Forall (eff_ok (op_names o) (op_tags o)) er.1) ops l.
+Proof.
+  intros W R. apply run_spec in R as [_ F]; [|exact W].
+  eapply Forall2_weaken; [|exact F]. cbn. intros x y [H _]. exact H.
+Qed.
+
+Lemma history_answers ops a t t' l :
+  wf t -> run a t ops = (t', l) -> Forall2 (fun o er => ans_ok o er.2) ops l.
+Proof.
+  intros W R. apply run_spec in R as [_ F]; [|exact W].
+  eapply Forall2_weaken; [|exact F]. cbn. intros x y [_ H]. exact H.
+Qed.
+
+Lemma step_effect a t o t' e r x :
+  wf t -> step a t o = (t', e, r) -> In x e -> eff_ok (op_names o) (op_tags o) x.
+Proof.
+  intros W S I. apply step_spec in S as (_ & F & _); [|exact W].
+  rewrite List.Forall_forall in F. apply F. exact I.
+Qed.
+
+Lemma handled_in_own_session a t o t' e r sid pdev job :
+  wf t -> step a t o = (t', e, r) -> In (EHandle sid pdev job) e -> sid = pdev /\ In pdev (op_names o).
+Proof. intros W S I. exact (step_effect _ _ _ _ _ _ _ W S I). Qed.
+Lemma touched_own_session a t o t' e r sid pdev :
+  wf t -> step a t o = (t', e, r) -> In (ETouch sid pdev) e -> sid = pdev /\ In pdev (op_names o).
+Proof. intros W S I. exact (step_effect _ _ _ _ _ _ _ W S I). Qed.
+Lemma rekeyed_own_session a t o t' e r sid pdev k :
+  wf t -> step a t o = (t', e, r) -> In (ERekey sid pdev k) e -> sid = pdev /\ In pdev (op_names o).
+Proof. intros W S I. exact (step_effect _ _ _ _ _ _ _ W S I). Qed.
+Lemma fetched_by_tag a t o t' e r sid tag :
+  wf t -> step a t o = (t', e, r) -> In (EFetch sid tag) e -> hash sid = tag /\ In tag (op_tags o).
+Proof. intros W S I. exact (step_effect _ _ _ _ _ _ _ W S I). Qed.
+
+Lemma outbound_own_conn a t p t' e k l :
+  wf t -> talk a t p = (t', e, AReply k l) -> Forall (out_ok (names p) (p_tags p)) l.
+Proof. intros W H. apply talk_spec in H as (_ & _ & _ & R); [exact R|exact W]. Qed.
+
+Lemma outbound_own_conn_sub a t n o t' e k q reg l :
+  wf t -> talk_sub a t n o = (t', e, ASub k q reg l) ->
+  Forall (fun x => o_dev x = l_dev n) l /\ (forall d, reg = Some d -> d = l_dev n) /\ (forall d, k = Some d -> d = l_dev n).
+Proof.
+  intros W H. eapply talk_sub_spec with (N := [l_dev n]) (T := []) in H as (_ & _ & _ & R1 & R2 & R3);
+    [|exact W|left; reflexivity].
+  split; [exact R1|]. split; [|exact R3]. intros d Hd. apply (R2 d Hd).
+Qed.
+
+Lemma old_code_refuted :
+  (option_map s_id (server_session_g false tA idB) = Some idA /\ server_session tA idB = None) /\
+  ((let '(_, e, r) := talk_g false 2 tA (Single (Leaf idB 192 11 (BKey 77)) []) in (e, r))
+     = ([ETouch idA idB; ERekey idA idB 77], AErr EMismatch) /\
+   (let '(_, e, r) := talk 2 tA (Single (Leaf idB 192 11 (BKey 77)) []) in (e, r)) = ([], ARegister idB)) /\
+  ((let '(_, e, r) := talk_sub_g false 2 tA (Leaf idB 192 11 (BKey 9)) false in (e, r))
+     = ([ETouch idA idB; ERekey idA idB 9], AErr EMismatch) /\
+   (let '(_, e, r) := talk_sub 2 tA (Leaf idB 192 11 (BKey 9)) false in (e, r))
+     = ([], ASub None 0 (Some idB) [])) /\
+  ((let '(x', b) := proxy_accept_g false xA (Leaf idB 208 11 BData) in (psnapshot x', b))
+     = ([(827974963, idA, [(idA, SvComplete, 10); (idB, 208, 11)])], true) /\
+   (proxy_talk_g false xA (Leaf idB 192 11 BData) []).2 = AReply true [(idA, SvComplete, 10)] /\
+   (let '(x', b) := proxy_accept xA (Leaf idB 208 11 BData) in (psnapshot x', b))
+     = ([(827974963, idA, [(idA, SvComplete, 10)])], false) /\
+   (proxy_talk xA (Leaf idB 192 11 BData) []).2 = ARegister idB).
+Proof. exact (conj old_session_refuted (conj old_talk_refuted (conj old_talk_sub_refuted old_proxy_refuted))). Qed.
+
+Lemma lookup_own_or_none t d s : server_session t d = Some s -> s_id s = d.
+Proof. intros H. apply (server_session_own _ _ _ H). Qed.
+
+Lemma demo_reachable : reachable (run 1 ∅ demo_ops).1.
+Proof. exists demo_ops, 1. reflexivity. Qed.
+
+Lemma proxy_history ops x x' l :
+  pwf (x_clients x) -> prun x ops = (x', l) ->
+  pwf (x_clients x') /\ Forall2 (fun o s => pans_ok o s.1.1 s.1.2 s.2) ops l.
+Proof. intros W H. eapply prun_spec; eauto. Qed.
+
+Lemma proxy_accept_own x n x' :
+  pwf (x_clients x) -> proxy_accept x n = (x', true) ->
+  exists c, x_clients x !! hash (l_dev n) = Some c /\ c_id c = l_dev n.
+Proof. intros W H. apply proxy_accept_spec in H as (_ & _ & C & _); auto. Qed.
